@@ -38,3 +38,4 @@ def check(repo, rep, tier):
     rep.run(rq.rule_facts_first, em, rep, 'C07.Q1')
     # the list of facts is the only thing a query consults: a query builds no second representation of it (cache, index)
     rep.run(rs.rule_queries_read_only, em, rep, 'C07.Q2')
+    rep.run(rx.rule_fact_objects_one_per_assert, em, rep, 'C07.S7')
